@@ -28,6 +28,7 @@ import LemoGen.Gas
 import LemoProofs.Lemmas.EvmShape
 import LemoProofs.Lemmas.EvmJournal
 import LemoProofs.Lemmas.EvmStatic
+import LemoProofs.Lemmas.EvmModExp
 namespace LemoProofs.C16
 open LemoModel LemoModel.Evm LemoProofs.EvmShape LemoProofs.EvmJournal LemoProofs.EvmStatic
 
@@ -706,6 +707,60 @@ theorem static_fail_event_survives :
     m0.journal = [] ∧ m1.readOnly = true ∧ m2.result = some (.ok, 49300) ∧ m2.frames = [] ∧
     m2.journal = [.event true] := by
   decide
+
+/-! ### precompile lengths: the MODEXP header (`LemoModel.ModExp`) -/
+
+/-- **modexp_alloc_gas_bounded** (current code: `Run` returns at once when both the base and the
+    modulus length are zero). For every header (any three 256-bit length words, any amount of data,
+    any exponent head): every slice size `Run` asks `make` for is at most `20·RequiredGas + 64` —
+    or `Run` returned before allocating (`allocs = []`). So the gas charged bounds the memory. -/
+theorem modexp_alloc_gas_bounded (baseLen expLen modLen dlen headBits a : Nat)
+    (ha : a ∈ (ModExp.run true baseLen expLen modLen dlen).allocs) :
+    a ≤ 20 * ModExp.requiredGas baseLen expLen modLen dlen headBits + 64 :=
+  EvmModExp.alloc_le_gas baseLen expLen modLen dlen headBits a ha
+
+/-- **modexp_no_panic_within_gas**: if the price is affordable (`RequiredGas ≤ G` with `G` below
+    2^42, far above any block gas limit), `Run` neither panics in a slice expression nor asks `make`
+    for more than the runtime's `maxAlloc`; it returns `modLen` bytes. -/
+theorem modexp_no_panic_within_gas (baseLen expLen modLen dlen headBits G : Nat)
+    (hG : ModExp.requiredGas baseLen expLen modLen dlen headBits ≤ G) (hsmall : G ≤ 4398046511104)
+    (hd : dlen ≤ 4398046511104) :
+    ModExp.outcome true baseLen expLen modLen dlen = some (modLen % ModExp.u64) := by
+  have hw := EvmModExp.no_wrap_of_gas baseLen expLen modLen dlen headBits G hG (by unfold ModExp.u64; omega)
+  have ha : ∀ a ∈ (ModExp.run true baseLen expLen modLen dlen).allocs, ¬ a > ModExp.maxAlloc := by
+    intro a h
+    have := EvmModExp.alloc_le_gas baseLen expLen modLen dlen headBits a h
+    unfold ModExp.maxAlloc
+    omega
+  unfold ModExp.outcome
+  simp only []
+  rw [if_neg]
+  · congr 1
+    unfold ModExp.run
+    simp only []
+    split
+    · rename_i h; exact h.2.2.symm
+    · rfl
+  · intro h
+    rcases h with h | h
+    · rw [hw] at h; cases h
+    · rw [List.any_eq_true] at h
+      obtain ⟨a, ha1, ha2⟩ := h
+      exact ha a ha1 (by simpa using ha2)
+
+/-- **refutation for the variant without the early return** (seeded change C16c): with
+    `baseLen = modLen = 0` the price is 0 whatever the exponent length says, and the unguarded `Run`
+    asks `make` for `expLen` bytes: 2^62 panics ("len out of range", no `recover` on that path), 2^33
+    is an 8 GiB allocation for 0 gas. The guarded code returns the empty slice. -/
+theorem modexp_unguarded_alloc_unbounded :
+    ModExp.requiredGas 0 (2^62) 0 0 0 = 0 ∧ 2^62 ∈ (ModExp.run false 0 (2^62) 0 0).allocs ∧
+    ModExp.outcome false 0 (2^62) 0 0 = none ∧ ModExp.outcome true 0 (2^62) 0 0 = some 0 ∧
+    ModExp.requiredGas 0 (2^33) 0 0 0 = 0 ∧ 2^33 ∈ (ModExp.run false 0 (2^33) 0 0).allocs := by
+  decide
+
+/-- non-vacuity: an affordable, allocating call (base 32, exp 32, mod 32 bytes, all present) -/
+example : ModExp.requiredGas 32 32 32 96 256 = 13056 ∧ (ModExp.run true 32 32 32 96).allocs = [0, 0, 0, 32] ∧
+    ModExp.outcome true 32 32 32 96 = some 32 := by decide
 
 /-! ### non-vacuity -/
 
